@@ -397,6 +397,14 @@ func (rf *ReplicaFollower) preSync(leaderSp StartPoint) (sp StartPoint, err erro
 	rf.logger.Infof("gap : leader(%v), follower(%v)", leaderSp, sp)
 
 	if sp.IsInitial() || !sp.IsValid() || sp.RunId != leaderSp.RunId {
+		// data kept under another run id belongs to a history that cannot be joined with the leader's : SetRunId
+		// would only relabel it (the disk cache renames the directory), so discard it first
+		if cur := rf.channel.RunId(); cur != "" && cur != "?" && cur != leaderSp.RunId {
+			if err = rf.channel.DelRunId(cur); err != nil {
+				err = errors.Join(ErrRestart, err)
+				return
+			}
+		}
 		if err = rf.channel.SetRunId(leaderSp.RunId); err != nil {
 			err = errors.Join(ErrRestart, err)
 			return
